@@ -28,7 +28,7 @@ def sh(cmd, cwd=None, env=None, timeout=None):
 def suite_ok(wt, tag):
     xml = f"/tmp/seed/junit_{tag}.xml"
     env = dict(os.environ, PYTHONPATH=wt)
-    sh(f"/venv/bin/python -m pytest -q -p no:cacheprovider --timeout=900 --continue-on-collection-errors --junitxml={xml} > /tmp/seed/suite_{tag}.log 2>&1", cwd=wt, env=env, timeout=3600)
+    sh(f"/venv/bin/python -m pytest -q -p no:cacheprovider --timeout=900 --continue-on-collection-errors --junitxml={xml} > /tmp/seed/suite_{tag}.log 2>&1", cwd=wt, env=env, timeout=10800)
     b = json.load(open("/root/.vp/BASELINE.json"))
     stable = set(x.replace(" ", "") for x in b["stable_pass"])
     status = {}
@@ -45,12 +45,15 @@ def main():
     ap.add_argument("--suite", action="store_true")
     ap.add_argument("--checks", default=None)
     ap.add_argument("--tier", default="quick")
+    ap.add_argument("--phase", default="all", choices=["all", "suite", "checks"], help="suite: patch/demo/test-suite only; checks: only run the checks (merges into eval.json)")
     a = ap.parse_args()
     for cid in a.ids:
         d = os.path.join(SEED, cid)
         pid = cid.split("_")[0]
         out = {"id": cid, "property": pid}
-        wt = f"/tmp/seed/wt_{cid}"
+        if a.phase == "checks" and os.path.exists(os.path.join(d, "eval.json")):
+            out = json.load(open(os.path.join(d, "eval.json")))
+        wt = f"/tmp/seed/wt_{cid}_{a.phase}"
         sh(f"git -C /repo worktree remove --force {wt}")
         rc, o = sh(f"git -C /repo worktree add -f {wt} HEAD")
         try:
@@ -60,24 +63,26 @@ def main():
                 out["error"] = o[-400:]
                 print(json.dumps(out))
                 continue
-            rc, o = sh(f"/venv/bin/python -c 'import fairlearn, fairlearn.metrics, fairlearn.reductions, fairlearn.postprocessing, fairlearn.preprocessing, fairlearn.adversarial'", env=dict(os.environ, PYTHONPATH=wt), cwd=wt)
-            out["imports"] = rc == 0
-            rc_m, o_m = sh(f"/venv/bin/python {d}/demo.py", env=dict(os.environ, PYTHONPATH=wt), cwd="/tmp", timeout=1800)
-            rc_c, o_c = sh(f"/venv/bin/python {d}/demo.py", env=dict(os.environ, PYTHONPATH="/repo"), cwd="/tmp", timeout=1800)
-            out["demo_fails_with_change"] = rc_m != 0
-            out["demo_passes_without"] = rc_c == 0
-            out["demo_output_with_change"] = o_m[-300:]
-            if a.suite:
-                ok, missing = suite_ok(wt, cid)
-                out["suite_passes"] = ok
-                out["suite_missing"] = missing
+            if a.phase in ("all", "suite"):
+                rc, o = sh(f"/venv/bin/python -c 'import fairlearn, fairlearn.metrics, fairlearn.reductions, fairlearn.postprocessing, fairlearn.preprocessing, fairlearn.adversarial'", env=dict(os.environ, PYTHONPATH=wt), cwd=wt)
+                out["imports"] = rc == 0
+                rc_m, o_m = sh(f"/venv/bin/python {d}/demo.py", env=dict(os.environ, PYTHONPATH=wt), cwd="/tmp", timeout=3600)
+                rc_c, o_c = sh(f"/venv/bin/python {d}/demo.py", env=dict(os.environ, PYTHONPATH="/repo"), cwd="/tmp", timeout=3600)
+                out["demo_fails_with_change"] = rc_m != 0
+                out["demo_passes_without"] = rc_c == 0
+                out["demo_output_with_change"] = o_m[-300:]
+                if a.suite:
+                    ok, missing = suite_ok(wt, cid)
+                    out["suite_passes"] = ok
+                    out["suite_missing"] = missing
             checks = (a.checks.split(",") if a.checks else [pid])
-            out["checks"] = {}
-            for c in checks:
+            out.setdefault("checks", {})
+            for c in (checks if a.phase in ("all", "checks") else []):
                 rc, o = sh(f"./check {c} --tier {a.tier}", cwd=ROOT, env=dict(os.environ, VERIF_REPO=wt), timeout=7200)
                 lines = [ln for ln in o.splitlines() if ln.startswith(("VIOLATION", "  what:", "UNDECIDED", "[C", "CHECKER-ERROR"))]
                 out["checks"][c] = {"exit": rc, "lines": lines[:12]}
-            out["detected"] = any(v["exit"] == 1 for v in out["checks"].values())
+            if out["checks"]:
+                out["detected"] = any(v["exit"] == 1 for v in out["checks"].values())
         finally:
             sh(f"git -C /repo worktree remove --force {wt}")
         json.dump(out, open(os.path.join(d, "eval.json"), "w"), indent=1)
